@@ -84,6 +84,7 @@ class OperatorTemplate(AbstractBaseTemplate):
                 pass  # pass equations string to constructor
             # else, update according to predefined rules, assuming dict structure
             elif isinstance(equations, dict):
+                equations = dict(equations)  # work on a copy: the caller's dictionary keeps its 'add' entry
                 new_eqs = equations.pop('add', [])
                 equations = [_update_equation(eq, **equations) for eq in self.equations] + new_eqs
             else:
